@@ -340,11 +340,12 @@ def main():
             "seed": seed,
             "level": LEVELS.get(prop, "exploration"),
             "coverage": {
-                "evaluations": evaluations,
+                "evaluations": runs,
+                "plans_executed": evaluations,
                 "distinct_nontrivial": len(nontrivial),
                 "rule": dispatch.rule(prop),
                 "samples": samples[:8],
-                "simulated_runs": runs,
+                "evaluations_are": "simulated runs (C19: operation histories); one plan executes one or more of them",
                 "planned": len(plans),
                 "runs_per_hour": round(runs / wall * 3600) if wall > 0 else 0,
                 "seeds_per_hour": round(evaluations / wall * 3600) if wall > 0 else 0,
